@@ -1,1 +1,950 @@
-//! shared helpers for the checks in this crate
+//! Shared helpers of the mc-sig checks (C01 C02 C03 C05):
+//! * `keys`   — fixed Ed25519 key pairs built from enumerated 32-byte seeds as PKCS#8 v1 / v2
+//!              documents (no RNG, DESIGN §1.4);
+//! * `refjson`— an independent canonical-JSON encoder on `serde_json::Value` (reference model),
+//!              conversions to / from ruma's `CanonicalJsonObject`;
+//! * `text`   — a JSON *text* model with spellers (key order, whitespace, escapes, duplicates);
+//! * `events` — the event families of C03 / C05, the spec's required-signer rule, single-field
+//!              mutations;
+//! * `pyval`  — trace files and the runner of the cross-language validator
+//!              (`python3 /verif/oracle/validate.py`).
+
+pub mod keys {
+    use ruma_common::serde::Base64;
+    use ruma_signatures::{Ed25519KeyPair, PublicKeyMap};
+
+    pub const N_SEEDS: usize = 6;
+
+    /// The enumerated seeds: seed `i` is the byte progression `17*(i+1) + 7*j`.
+    pub fn seed(i: usize) -> [u8; 32] {
+        let mut s = [0u8; 32];
+        for (j, b) in s.iter_mut().enumerate() {
+            *b = (17 * (i + 1) + 7 * j) as u8;
+        }
+        s
+    }
+
+    const HEAD_V1: [u8; 16] =
+        [0x30, 0x2e, 0x02, 0x01, 0x00, 0x30, 0x05, 0x06, 0x03, 0x2b, 0x65, 0x70, 0x04, 0x22, 0x04, 0x20];
+    const HEAD_V2: [u8; 16] =
+        [0x30, 0x51, 0x02, 0x01, 0x01, 0x30, 0x05, 0x06, 0x03, 0x2b, 0x65, 0x70, 0x04, 0x22, 0x04, 0x20];
+
+    /// PKCS#8 v1 (RFC 5208 / 8410 without public key)
+    pub fn pkcs8_v1(seed: &[u8; 32]) -> Vec<u8> {
+        let mut d = HEAD_V1.to_vec();
+        d.extend_from_slice(seed);
+        d
+    }
+
+    /// PKCS#8 v2 (RFC 5958 OneAsymmetricKey with `[1] publicKey`)
+    pub fn pkcs8_v2(seed: &[u8; 32], public: &[u8; 32]) -> Vec<u8> {
+        let mut d = HEAD_V2.to_vec();
+        d.extend_from_slice(seed);
+        d.extend_from_slice(&[0x81, 0x21, 0x00]);
+        d.extend_from_slice(public);
+        d
+    }
+
+    /// Key pair of seed `i`: even seeds are loaded from a v1 document, odd seeds from a v2
+    /// document (whose public key comes from the v1 load of the same seed).
+    pub fn key_pair(i: usize, version: &str) -> Ed25519KeyPair {
+        let s = seed(i);
+        let v1 = Ed25519KeyPair::from_der(&pkcs8_v1(&s), version.to_owned())
+            .unwrap_or_else(|e| engine::machinery_error(&format!("PKCS#8 v1 of seed {i} rejected: {e}")));
+        if i % 2 == 0 {
+            return v1;
+        }
+        let public = v1.public_key();
+        Ed25519KeyPair::from_der(&pkcs8_v2(&s, &public), version.to_owned())
+            .unwrap_or_else(|e| engine::machinery_error(&format!("PKCS#8 v2 of seed {i} rejected: {e}")))
+    }
+
+    pub fn public_key(i: usize) -> [u8; 32] {
+        key_pair(i, "1").public_key()
+    }
+
+    pub fn hex(b: &[u8]) -> String {
+        const D: &[u8; 16] = b"0123456789abcdef";
+        let mut s = String::with_capacity(b.len() * 2);
+        for x in b {
+            s.push(D[(x >> 4) as usize] as char);
+            s.push(D[(x & 15) as usize] as char);
+        }
+        s
+    }
+
+    pub fn unhex(s: &str) -> Vec<u8> {
+        (0..s.len() / 2).map(|i| u8::from_str_radix(&s[2 * i..2 * i + 2], 16).unwrap_or(0)).collect()
+    }
+
+    /// `entity -> key id -> public key bytes`, as a ruma `PublicKeyMap`
+    pub fn key_map(entries: &[(&str, &str, Vec<u8>)]) -> PublicKeyMap {
+        let mut m = PublicKeyMap::new();
+        for (entity, key_id, bytes) in entries {
+            m.entry((*entity).to_owned())
+                .or_default()
+                .insert((*key_id).to_owned(), Base64::new(bytes.clone()));
+        }
+        m
+    }
+}
+
+pub mod refjson {
+    use ruma_common::{CanonicalJsonObject, CanonicalJsonValue};
+    use serde_json::{Map, Value};
+
+    /// Reference canonical JSON (Matrix spec appendix): keys sorted by code point, no
+    /// whitespace, minimal escapes (`\"`, `\\`, `\b \f \n \r \t`, other C0 as `\u00xx` lowercase),
+    /// everything else literal UTF-8, integers only. `None` if a number is not an integer in
+    /// [-(2^53-1), 2^53-1].
+    pub fn canonical(v: &Value) -> Option<String> {
+        let mut out = String::new();
+        enc(v, &mut out)?;
+        Some(out)
+    }
+
+    pub fn canonical_obj(m: &Map<String, Value>) -> Option<String> {
+        canonical(&Value::Object(m.clone()))
+    }
+
+    /// canonical JSON of the object without the given top-level keys
+    pub fn canonical_without(m: &Map<String, Value>, remove: &[&str]) -> Option<String> {
+        let mut m = m.clone();
+        for k in remove {
+            m.remove(*k);
+        }
+        canonical(&Value::Object(m))
+    }
+
+    pub fn enc_str(s: &str, out: &mut String) {
+        out.push('"');
+        for ch in s.chars() {
+            match ch {
+                '"' => out.push_str("\\\""),
+                '\\' => out.push_str("\\\\"),
+                '\u{8}' => out.push_str("\\b"),
+                '\u{c}' => out.push_str("\\f"),
+                '\n' => out.push_str("\\n"),
+                '\r' => out.push_str("\\r"),
+                '\t' => out.push_str("\\t"),
+                c if (c as u32) < 0x20 => out.push_str(&format!("\\u{:04x}", c as u32)),
+                c => out.push(c),
+            }
+        }
+        out.push('"');
+    }
+
+    fn enc(v: &Value, out: &mut String) -> Option<()> {
+        match v {
+            Value::Null => out.push_str("null"),
+            Value::Bool(true) => out.push_str("true"),
+            Value::Bool(false) => out.push_str("false"),
+            Value::Number(n) => {
+                let i = n.as_i64()?;
+                if !(-9_007_199_254_740_991..=9_007_199_254_740_991).contains(&i) {
+                    return None;
+                }
+                out.push_str(&i.to_string());
+            }
+            Value::String(s) => enc_str(s, out),
+            Value::Array(a) => {
+                out.push('[');
+                for (i, x) in a.iter().enumerate() {
+                    if i > 0 {
+                        out.push(',');
+                    }
+                    enc(x, out)?;
+                }
+                out.push(']');
+            }
+            Value::Object(m) => {
+                let mut keys: Vec<&String> = m.keys().collect();
+                // explicit code-point order, not whatever the map happens to use
+                keys.sort_by(|a, b| a.chars().cmp(b.chars()));
+                out.push('{');
+                for (i, k) in keys.iter().enumerate() {
+                    if i > 0 {
+                        out.push(',');
+                    }
+                    enc_str(k, out);
+                    out.push(':');
+                    enc(&m[*k], out)?;
+                }
+                out.push('}');
+            }
+        }
+        Some(())
+    }
+
+    pub fn to_canonical_obj(m: &Map<String, Value>) -> CanonicalJsonObject {
+        m.iter()
+            .map(|(k, v)| {
+                (
+                    k.clone(),
+                    CanonicalJsonValue::try_from(v.clone())
+                        .unwrap_or_else(|e| engine::machinery_error(&format!("harness value not canonical: {e}"))),
+                )
+            })
+            .collect()
+    }
+
+    pub fn from_canonical_obj(o: &CanonicalJsonObject) -> Map<String, Value> {
+        o.iter().map(|(k, v)| (k.clone(), Value::from(v.clone()))).collect()
+    }
+
+    pub fn obj(v: Value) -> Map<String, Value> {
+        match v {
+            Value::Object(m) => m,
+            _ => engine::machinery_error("expected an object literal"),
+        }
+    }
+}
+
+pub mod text {
+    //! JSON *texts*: a value model in which objects are entry lists in textual order (duplicates
+    //! allowed, last one wins) and numbers may be raw literals, plus spellers.
+    use serde_json::{Map, Value};
+
+    #[derive(Clone, Debug, PartialEq)]
+    pub enum V {
+        Null,
+        Bool(bool),
+        Int(i64),
+        /// a raw number literal that canonical JSON cannot represent
+        RawNum(&'static str),
+        Str(String),
+        /// a raw string token (already escaped, with quotes) — for lone surrogates
+        RawStr(&'static str),
+        Arr(Vec<V>),
+        Obj(Vec<(K, V)>),
+    }
+
+    /// object key: a string or a raw token
+    #[derive(Clone, Debug, PartialEq)]
+    pub enum K {
+        S(String),
+        Raw(&'static str),
+    }
+
+    impl V {
+        pub fn s(s: &str) -> V {
+            V::Str(s.to_owned())
+        }
+        pub fn obj(entries: Vec<(&str, V)>) -> V {
+            V::Obj(entries.into_iter().map(|(k, v)| (K::S(k.to_owned()), v)).collect())
+        }
+        pub fn nodes(&self) -> usize {
+            match self {
+                V::Arr(a) => 1 + a.iter().map(V::nodes).sum::<usize>(),
+                V::Obj(o) => 1 + o.iter().map(|(_, v)| v.nodes()).sum::<usize>(),
+                _ => 1,
+            }
+        }
+        /// The JSON value this text denotes (last duplicate wins); `None` if a
+        /// non-representable literal is part of the resulting value.
+        pub fn semantic(&self) -> Option<Value> {
+            Some(match self {
+                V::Null => Value::Null,
+                V::Bool(b) => Value::Bool(*b),
+                V::Int(i) => Value::from(*i),
+                V::RawNum(_) | V::RawStr(_) => return None,
+                V::Str(s) => Value::String(s.clone()),
+                V::Arr(a) => Value::Array(a.iter().map(V::semantic).collect::<Option<Vec<_>>>()?),
+                V::Obj(o) => {
+                    // last one wins: walk backwards, keep the first occurrence seen
+                    let mut m = Map::new();
+                    for (k, v) in o.iter().rev() {
+                        let K::S(k) = k else { return None };
+                        if !m.contains_key(k) {
+                            m.insert(k.clone(), v.semantic()?);
+                        }
+                    }
+                    Value::Object(m)
+                }
+            })
+        }
+        /// does the text contain an overwritten duplicate entry that holds a raw literal?
+        pub fn has_raw(&self) -> bool {
+            match self {
+                V::RawNum(_) | V::RawStr(_) => true,
+                V::Arr(a) => a.iter().any(V::has_raw),
+                V::Obj(o) => o.iter().any(|(k, v)| matches!(k, K::Raw(_)) || v.has_raw()),
+                _ => false,
+            }
+        }
+    }
+
+    pub const N_WS: usize = 3;
+    pub const N_ESC: usize = 4;
+
+    struct Sp<'a> {
+        out: &'a mut String,
+        ws: usize,
+        esc: usize,
+        ctr: usize,
+    }
+
+    impl Sp<'_> {
+        fn gap(&mut self, kind: usize) {
+            match self.ws {
+                0 => {}
+                1 => self.out.push_str(["\n  ", " ", "\n"][kind % 3]),
+                _ => self.out.push_str(["\t\r", "\r\t\t", "\t"][kind % 3]),
+            }
+        }
+        fn ch_u(&mut self, c: char, upper: bool) {
+            let mut buf = [0u16; 2];
+            for u in c.encode_utf16(&mut buf) {
+                if upper {
+                    self.out.push_str(&format!("\\u{:04X}", u));
+                } else {
+                    self.out.push_str(&format!("\\u{:04x}", u));
+                }
+            }
+        }
+        fn ch_literal(&mut self, c: char) {
+            match c {
+                '"' => self.out.push_str("\\\""),
+                '\\' => self.out.push_str("\\\\"),
+                c if (c as u32) < 0x20 => self.ch_u(c, true),
+                c => self.out.push(c),
+            }
+        }
+        fn ch_short(&mut self, c: char) {
+            match c {
+                '"' => self.out.push_str("\\\""),
+                '\\' => self.out.push_str("\\\\"),
+                '/' => self.out.push_str("\\/"),
+                '\u{8}' => self.out.push_str("\\b"),
+                '\u{c}' => self.out.push_str("\\f"),
+                '\n' => self.out.push_str("\\n"),
+                '\r' => self.out.push_str("\\r"),
+                '\t' => self.out.push_str("\\t"),
+                c if (c as u32) < 0x20 => self.ch_u(c, false),
+                c => self.out.push(c),
+            }
+        }
+        fn string(&mut self, s: &str) {
+            self.out.push('"');
+            for c in s.chars() {
+                match self.esc {
+                    0 => self.ch_literal(c),
+                    1 => self.ch_u(c, false),
+                    2 => self.ch_short(c),
+                    _ => {
+                        self.ctr += 1;
+                        if self.ctr % 2 == 0 {
+                            self.ch_u(c, true)
+                        } else {
+                            self.ch_literal(c)
+                        }
+                    }
+                }
+            }
+            self.out.push('"');
+        }
+        fn value(&mut self, v: &V) {
+            match v {
+                V::Null => self.out.push_str("null"),
+                V::Bool(b) => self.out.push_str(if *b { "true" } else { "false" }),
+                V::Int(i) => self.out.push_str(&i.to_string()),
+                V::RawNum(l) | V::RawStr(l) => self.out.push_str(l),
+                V::Str(s) => self.string(s),
+                V::Arr(a) => {
+                    self.out.push('[');
+                    for (i, x) in a.iter().enumerate() {
+                        if i > 0 {
+                            self.gap(2);
+                            self.out.push(',');
+                        }
+                        self.gap(i);
+                        self.value(x);
+                    }
+                    self.gap(1);
+                    self.out.push(']');
+                }
+                V::Obj(o) => {
+                    self.out.push('{');
+                    for (i, (k, x)) in o.iter().enumerate() {
+                        if i > 0 {
+                            self.gap(1);
+                            self.out.push(',');
+                        }
+                        self.gap(i);
+                        match k {
+                            K::S(k) => self.string(k),
+                            K::Raw(r) => self.out.push_str(r),
+                        }
+                        self.gap(2);
+                        self.out.push(':');
+                        self.gap(1);
+                        self.value(x);
+                    }
+                    self.gap(0);
+                    self.out.push('}');
+                }
+            }
+        }
+    }
+
+    /// Spell `v` with whitespace style `ws` (0 none, 1 spaces+newlines, 2 tabs+CR) and escape
+    /// style `esc` (0 literal where JSON allows, 1 `\uxxxx` for every character incl. surrogate
+    /// pairs, 2 short escapes incl. `\/`, 3 alternating `\uXXXX` upper case / literal).
+    pub fn spell(v: &V, ws: usize, esc: usize) -> String {
+        let mut out = String::new();
+        let mut sp = Sp { out: &mut out, ws, esc, ctr: 0 };
+        sp.gap(2);
+        sp.value(v);
+        sp.gap(0);
+        out
+    }
+
+    /// every reordering of the entries of every object in `v` (product over objects)
+    pub fn key_orders(v: &V) -> Vec<V> {
+        match v {
+            V::Arr(a) => {
+                let mut acc: Vec<Vec<V>> = vec![vec![]];
+                for x in a {
+                    let alts = key_orders(x);
+                    let mut next = Vec::with_capacity(acc.len() * alts.len());
+                    for pre in &acc {
+                        for alt in &alts {
+                            let mut p = pre.clone();
+                            p.push(alt.clone());
+                            next.push(p);
+                        }
+                    }
+                    acc = next;
+                }
+                acc.into_iter().map(V::Arr).collect()
+            }
+            V::Obj(o) => {
+                // children first
+                let mut acc: Vec<Vec<(K, V)>> = vec![vec![]];
+                for (k, x) in o {
+                    let alts = key_orders(x);
+                    let mut next = Vec::with_capacity(acc.len() * alts.len());
+                    for pre in &acc {
+                        for alt in &alts {
+                            let mut p = pre.clone();
+                            p.push((k.clone(), alt.clone()));
+                            next.push(p);
+                        }
+                    }
+                    acc = next;
+                }
+                let perms = engine::permutations(o.len());
+                let mut out = Vec::with_capacity(acc.len() * perms.len());
+                for entries in acc {
+                    for p in &perms {
+                        out.push(V::Obj(p.iter().map(|&i| entries[i].clone()).collect()));
+                    }
+                }
+                out
+            }
+            other => vec![other.clone()],
+        }
+    }
+
+    /// Texts with one duplicate key: for every object entry (any depth) a decoy entry with the
+    /// same key and a different value is inserted at every position *before* it (so the real
+    /// entry still wins).
+    pub fn with_duplicates(v: &V, decoys: &[V]) -> Vec<V> {
+        fn rec(v: &V, decoys: &[V], out: &mut Vec<V>, rebuild: &dyn Fn(V) -> V) {
+            match v {
+                V::Arr(a) => {
+                    for (i, x) in a.iter().enumerate() {
+                        let a2 = a.clone();
+                        rec(x, decoys, out, &|nx| {
+                            let mut a3 = a2.clone();
+                            a3[i] = nx;
+                            rebuild(V::Arr(a3))
+                        });
+                    }
+                }
+                V::Obj(o) => {
+                    for (i, (k, x)) in o.iter().enumerate() {
+                        for d in decoys {
+                            if d == x {
+                                continue;
+                            }
+                            for pos in 0..=i {
+                                let mut o2 = o.clone();
+                                o2.insert(pos, (k.clone(), d.clone()));
+                                out.push(rebuild(V::Obj(o2)));
+                            }
+                        }
+                        let o2 = o.clone();
+                        rec(x, decoys, out, &|nx| {
+                            let mut o3 = o2.clone();
+                            o3[i].1 = nx;
+                            rebuild(V::Obj(o3))
+                        });
+                    }
+                }
+                _ => {}
+            }
+        }
+        let mut out = vec![];
+        rec(v, decoys, &mut out, &|x| x);
+        out
+    }
+}
+
+pub mod events {
+    //! Event families of C03 / C05 and the spec rules about who has to sign (DESIGN App. A.2).
+    use std::collections::BTreeSet;
+
+    use serde_json::{json, Map, Value};
+
+    use crate::refjson::obj;
+
+    pub const SENDER_SERVER: &str = "sender.org";
+    pub const EVENT_ID_SERVER: &str = "eid.org";
+    pub const AUTH_SERVER: &str = "auth.org";
+    pub const EXTRA_SERVER: &str = "extra.org";
+
+    #[derive(Clone, Debug)]
+    pub struct Family {
+        pub name: &'static str,
+        pub event: Map<String, Value>,
+    }
+
+    fn base(ty: &str, state_key: Option<&str>, content: Value) -> Map<String, Value> {
+        let mut m = obj(json!({
+            "event_id": "$e1:eid.org",
+            "type": ty,
+            "room_id": "!room:sender.org",
+            "sender": "@alice:sender.org",
+            "content": content,
+            "depth": 12,
+            "prev_events": [["$p1:sender.org", {"sha256": "cHJldg"}], "$p2"],
+            "auth_events": [["$a1:sender.org", {"sha256": "YXV0aA"}]],
+            "origin_server_ts": 1_700_000_000_123i64,
+            "origin": "sender.org",
+            "membership": "join",
+            "prev_state": [],
+            "redacts": "$gone:sender.org",
+            "foo": {"bar": [1, "é", null]},
+            "unsigned": {"age": 5, "prev_content": {"k": "v"}},
+        }));
+        if let Some(sk) = state_key {
+            m.insert("state_key".into(), json!(sk));
+        }
+        m
+    }
+
+    fn member(membership: &str, extra: Value) -> Value {
+        let mut c = obj(json!({
+            "membership": membership,
+            "displayname": "Alice ☃",
+            "avatar_url": "mxc://sender.org/abc",
+            "is_direct": true,
+            "reason": "because",
+            "foo": 1,
+        }));
+        for (k, v) in obj(extra) {
+            c.insert(k, v);
+        }
+        Value::Object(c)
+    }
+
+    /// The 15 families: every content key the spec names for the type in any room version, one
+    /// unknown content key (`foo`), one unknown top-level key (`foo`), `unsigned`, `redacts`,
+    /// `origin` / `membership` / `prev_state`.
+    pub fn families() -> Vec<Family> {
+        let tpi = json!({"third_party_invite": {
+            "display_name": "bob",
+            "signed": {"mxid": "@bob:sender.org", "token": "tok", "signatures": {"id.org": {"ed25519:0": "c2ln"}}},
+        }});
+        let f = |name, event| Family { name, event };
+        vec![
+            f("member-join", base("m.room.member", Some("@alice:sender.org"), member("join", json!({})))),
+            f("member-invite", base("m.room.member", Some("@bob:other.org"), member("invite", json!({})))),
+            f("member-invite-3pid", base("m.room.member", Some("@bob:sender.org"), member("invite", tpi))),
+            f("member-leave", base("m.room.member", Some("@alice:sender.org"), member("leave", json!({})))),
+            f("member-ban", base("m.room.member", Some("@bob:other.org"), member("ban", json!({})))),
+            f("member-knock", base("m.room.member", Some("@alice:sender.org"), member("knock", json!({})))),
+            f(
+                "member-restricted-join",
+                base(
+                    "m.room.member",
+                    Some("@alice:sender.org"),
+                    member("join", json!({"join_authorised_via_users_server": "@admin:auth.org"})),
+                ),
+            ),
+            f(
+                "create",
+                base(
+                    "m.room.create",
+                    Some(""),
+                    json!({"creator": "@alice:sender.org", "room_version": "x", "m.federate": false,
+                           "predecessor": {"room_id": "!old:sender.org", "event_id": "$old"}, "type": "m.space", "foo": 1}),
+                ),
+            ),
+            f(
+                "join_rules",
+                base(
+                    "m.room.join_rules",
+                    Some(""),
+                    json!({"join_rule": "restricted", "allow": [{"type": "m.room_membership", "room_id": "!s:sender.org"}], "foo": 1}),
+                ),
+            ),
+            f(
+                "power_levels",
+                base(
+                    "m.room.power_levels",
+                    Some(""),
+                    json!({"ban": 50, "events": {"m.room.name": 50}, "events_default": 0, "kick": 50, "redact": 50,
+                           "state_default": 50, "users": {"@alice:sender.org": 100}, "users_default": 0, "invite": 10,
+                           "notifications": {"room": 50}, "foo": 1}),
+                ),
+            ),
+            f("aliases", base("m.room.aliases", Some("sender.org"), json!({"aliases": ["#a:sender.org"], "foo": 1}))),
+            f(
+                "history_visibility",
+                base("m.room.history_visibility", Some(""), json!({"history_visibility": "shared", "foo": 1})),
+            ),
+            f("redaction", base("m.room.redaction", None, json!({"redacts": "$gone:sender.org", "reason": "spam", "foo": 1}))),
+            f(
+                "message",
+                base(
+                    "m.room.message",
+                    None,
+                    json!({"body": "hi \"there\" \u{1F600}\n", "msgtype": "m.text", "m.relates_to": {"rel_type": "m.thread"}, "foo": 1}),
+                ),
+            ),
+            f("unknown-type", base("x.custom", Some("k"), json!({"body": "b", "membership": "join", "creator": "c", "foo": 1}))),
+        ]
+    }
+
+    pub enum Signers {
+        Must(BTreeSet<String>),
+        /// the event is malformed in a way that makes the required servers undeterminable: Err
+        Err,
+        Unspecified,
+    }
+
+    fn server_of(id: &Value, sigil: char) -> Option<String> {
+        let s = id.as_str()?;
+        if !s.starts_with(sigil) {
+            return None;
+        }
+        let (_local, server) = s[1..].split_once(':')?;
+        if server.is_empty() {
+            return None;
+        }
+        Some(server.to_owned())
+    }
+
+    /// Which servers must have signed (spec, server-server API "Validating hashes and
+    /// signatures on received events" + room versions 1-2 / 8+).
+    pub fn required_signers(v: u8, ev: &Map<String, Value>) -> Signers {
+        let Some(ty) = ev.get("type").and_then(Value::as_str) else { return Signers::Err };
+        let content = ev.get("content").and_then(Value::as_object);
+        let mut out = BTreeSet::new();
+        let mut third_party = false;
+        if ty == "m.room.member" {
+            // a member event without an object content / string membership is malformed; the
+            // spec does not say what signature validation does with it
+            let Some(content) = content else { return Signers::Unspecified };
+            let Some(membership) = content.get("membership").and_then(Value::as_str) else {
+                return Signers::Unspecified;
+            };
+            if membership == "invite" {
+                match content.get("third_party_invite") {
+                    None => {}
+                    Some(Value::Object(_)) => third_party = true,
+                    Some(_) => return Signers::Unspecified,
+                }
+            }
+        }
+        if !third_party {
+            match ev.get("sender").and_then(|s| server_of(s, '@')) {
+                Some(s) => {
+                    out.insert(s);
+                }
+                None => return Signers::Err,
+            }
+        }
+        if v <= 2 {
+            match ev.get("event_id").and_then(|s| server_of(s, '$')) {
+                Some(s) => {
+                    out.insert(s);
+                }
+                None => return Signers::Err,
+            }
+        }
+        if v >= 8 {
+            if let Some(u) = content.and_then(|c| c.get("join_authorised_via_users_server")) {
+                let is_join = ty == "m.room.member"
+                    && content.and_then(|c| c.get("membership")).and_then(Value::as_str) == Some("join");
+                if !is_join {
+                    // the spec only talks about joins; ruma looks at the key on every event
+                    return Signers::Unspecified;
+                }
+                match server_of(u, '@') {
+                    Some(s) => {
+                        out.insert(s);
+                    }
+                    None => return Signers::Err,
+                }
+            }
+        }
+        Signers::Must(out)
+    }
+
+    #[derive(Clone, Debug)]
+    pub struct Mutation {
+        /// `change:content.membership`, `delete:origin`, `add:content.zzz` …
+        pub label: String,
+        pub event: Map<String, Value>,
+    }
+
+    /// a value of the same JSON kind that differs from `v`
+    pub fn tweak(v: &Value) -> Value {
+        match v {
+            Value::Null => json!(0),
+            Value::Bool(b) => json!(!b),
+            Value::Number(n) => json!(n.as_i64().unwrap_or(0) + 1),
+            Value::String(s) => {
+                // keep identifiers well-formed: change the localpart / a middle character
+                if let Some(rest) = s.strip_prefix('@') {
+                    json!(format!("@x{rest}"))
+                } else if let Some(rest) = s.strip_prefix('$') {
+                    json!(format!("$x{rest}"))
+                } else {
+                    json!(format!("{s}x"))
+                }
+            }
+            Value::Array(a) => {
+                let mut a = a.clone();
+                a.push(json!("x"));
+                Value::Array(a)
+            }
+            Value::Object(m) => {
+                let mut m = m.clone();
+                m.insert("zz_added".into(), json!(1));
+                Value::Object(m)
+            }
+        }
+    }
+
+    /// Every single-key mutation of `ev`: change / delete of every key at top level, in
+    /// `content`, in `unsigned`, in `hashes`, in `content.third_party_invite` and its `signed`;
+    /// an added unknown key in each of those objects; a kind change (value replaced by a value
+    /// of another JSON kind) for top-level and content keys. `signatures` is left alone (the
+    /// checks handle signer removal / bit flips themselves).
+    pub fn mutations(ev: &Map<String, Value>) -> Vec<Mutation> {
+        let mut out = vec![];
+        let paths: Vec<Vec<&str>> = vec![
+            vec![],
+            vec!["content"],
+            vec!["unsigned"],
+            vec!["hashes"],
+            vec!["content", "third_party_invite"],
+            vec!["content", "third_party_invite", "signed"],
+        ];
+        for path in paths {
+            let Some(target) = get_path(ev, &path) else { continue };
+            let prefix = if path.is_empty() { String::new() } else { format!("{}.", path.join(".")) };
+            for (k, val) in target {
+                if path.is_empty() && k == "signatures" {
+                    continue;
+                }
+                let mut e = ev.clone();
+                get_path_mut(&mut e, &path).unwrap().insert(k.clone(), tweak(val));
+                out.push(Mutation { label: format!("change:{prefix}{k}"), event: e });
+                let mut e = ev.clone();
+                get_path_mut(&mut e, &path).unwrap().remove(k);
+                out.push(Mutation { label: format!("delete:{prefix}{k}"), event: e });
+                if path.len() <= 1 {
+                    let other = if val.is_number() { json!("seven") } else { json!(7) };
+                    let mut e = ev.clone();
+                    get_path_mut(&mut e, &path).unwrap().insert(k.clone(), other);
+                    out.push(Mutation { label: format!("kind:{prefix}{k}"), event: e });
+                }
+            }
+            let mut e = ev.clone();
+            get_path_mut(&mut e, &path).unwrap().insert("zzz".into(), json!("added"));
+            out.push(Mutation { label: format!("add:{prefix}zzz"), event: e });
+        }
+        if !ev.contains_key("unsigned") {
+            let mut e = ev.clone();
+            e.insert("unsigned".into(), json!({"age": 1}));
+            out.push(Mutation { label: "add:unsigned".into(), event: e });
+        }
+        out
+    }
+
+    pub fn get_path<'a>(ev: &'a Map<String, Value>, path: &[&str]) -> Option<&'a Map<String, Value>> {
+        let mut cur = ev;
+        for p in path {
+            cur = cur.get(*p)?.as_object()?;
+        }
+        Some(cur)
+    }
+
+    pub fn get_path_mut<'a>(ev: &'a mut Map<String, Value>, path: &[&str]) -> Option<&'a mut Map<String, Value>> {
+        let mut cur = ev;
+        for p in path {
+            cur = cur.get_mut(*p)?.as_object_mut()?;
+        }
+        Some(cur)
+    }
+}
+
+pub mod pyval {
+    //! Trace files and the cross-language validator.
+    use std::{
+        fs,
+        io::Write as _,
+        path::{Path, PathBuf},
+        process::Command,
+        sync::Mutex,
+    };
+
+    use serde_json::Value;
+
+    /// Collects trace lines per shard so the file order is deterministic.
+    pub struct Trace {
+        id: String,
+        shards: Mutex<Vec<(usize, Vec<String>)>>,
+    }
+
+    #[derive(Clone, Debug)]
+    pub struct Mismatch {
+        pub line: usize,
+        pub sig: String,
+        pub detail: String,
+    }
+
+    #[derive(Clone, Debug, Default)]
+    pub struct Summary {
+        pub validated: u64,
+        pub unspecified: u64,
+        pub lines: u64,
+        pub mismatches: u64,
+    }
+
+    pub fn trace_dir() -> String {
+        match std::env::var("VERIF_OUT") {
+            Ok(o) => format!("{o}/trace"),
+            Err(_) => format!("{}/target/trace", engine::VERIF_ROOT),
+        }
+    }
+
+    impl Trace {
+        pub fn new(id: &str) -> Self {
+            Trace { id: id.to_owned(), shards: Mutex::new(vec![]) }
+        }
+        pub fn push_shard(&self, shard: usize, lines: Vec<String>) {
+            if !lines.is_empty() {
+                self.shards.lock().unwrap().push((shard, lines));
+            }
+        }
+        /// Write the trace, run the validator, keep the file as `<dir>/<ID>.jsonl`.
+        /// Returns the lines (in file order), the mismatches and the summary.
+        pub fn validate(self) -> (Vec<String>, Vec<Mismatch>, Summary) {
+            let mut shards = self.shards.into_inner().unwrap();
+            shards.sort_by_key(|(s, _)| *s);
+            let lines: Vec<String> = shards.into_iter().flat_map(|(_, l)| l).collect();
+            let dir = trace_dir();
+            fs::create_dir_all(&dir)
+                .unwrap_or_else(|e| engine::machinery_error(&format!("cannot create {dir}: {e}")));
+            let tmp = PathBuf::from(format!("{dir}/{}.{}.jsonl", self.id, std::process::id()));
+            {
+                let f = fs::File::create(&tmp)
+                    .unwrap_or_else(|e| engine::machinery_error(&format!("cannot create {tmp:?}: {e}")));
+                let mut w = std::io::BufWriter::with_capacity(1 << 20, f);
+                for l in &lines {
+                    if w.write_all(l.as_bytes()).and_then(|_| w.write_all(b"\n")).is_err() {
+                        engine::machinery_error("cannot write trace");
+                    }
+                }
+                if w.flush().is_err() {
+                    engine::machinery_error("cannot flush trace");
+                }
+            }
+            let (mism, summary) = run_validator(&self.id, &tmp);
+            let fin = PathBuf::from(format!("{dir}/{}.jsonl", self.id));
+            let big = fs::metadata(&tmp).map(|m| m.len() > (256 << 20)).unwrap_or(false);
+            if big && mism.is_empty() {
+                // a clean multi-hundred-MB trace is not worth keeping around
+                let _ = fs::remove_file(&tmp);
+                let _ = fs::remove_file(&fin);
+            } else {
+                let _ = fs::rename(&tmp, &fin);
+            }
+            if summary.lines != lines.len() as u64 {
+                engine::machinery_error(&format!(
+                    "validator saw {} lines, the trace has {}",
+                    summary.lines,
+                    lines.len()
+                ));
+            }
+            (lines, mism, summary)
+        }
+    }
+
+    /// `python3 /verif/oracle/validate.py <ID> <trace>`; a crash, a nonzero exit or a missing
+    /// summary is a machinery error (exit 2), never a verdict.
+    pub fn run_validator(id: &str, trace: &Path) -> (Vec<Mismatch>, Summary) {
+        let script = format!("{}/oracle/validate.py", engine::VERIF_ROOT);
+        let out = Command::new("python3")
+            .arg(&script)
+            .arg(id)
+            .arg(trace)
+            .output()
+            .unwrap_or_else(|e| engine::machinery_error(&format!("cannot run python3 {script}: {e}")));
+        if !out.status.success() {
+            engine::machinery_error(&format!(
+                "validator exited with {:?}: {}",
+                out.status.code(),
+                engine::truncate(&String::from_utf8_lossy(&out.stderr), 1500)
+            ));
+        }
+        let stdout = String::from_utf8_lossy(&out.stdout);
+        let mut mism = vec![];
+        let mut summary = None;
+        for l in stdout.lines() {
+            let v: Value = serde_json::from_str(l)
+                .unwrap_or_else(|e| engine::machinery_error(&format!("validator printed non-JSON {l:?}: {e}")));
+            if let Some(s) = v.get("summary") {
+                let g = |k: &str| s.get(k).and_then(Value::as_u64).unwrap_or(0);
+                summary = Some(Summary {
+                    validated: g("validated"),
+                    unspecified: g("unspecified"),
+                    lines: g("lines"),
+                    mismatches: g("mismatches"),
+                });
+            } else {
+                mism.push(Mismatch {
+                    line: v["line"].as_u64().unwrap_or(0) as usize,
+                    sig: v["sig"].as_str().unwrap_or("py/?").to_owned(),
+                    detail: v["detail"].as_str().unwrap_or("").to_owned(),
+                });
+            }
+        }
+        let Some(summary) = summary else { engine::machinery_error("validator printed no summary line") };
+        if summary.mismatches != mism.len() as u64 {
+            engine::machinery_error("validator summary does not match its mismatch lines");
+        }
+        (mism, summary)
+    }
+
+    /// Validate a handful of lines (replay): returns `(sig, detail)` per mismatch.
+    pub fn validate_lines(id: &str, lines: &[String]) -> Vec<(String, String)> {
+        if lines.is_empty() {
+            return vec![];
+        }
+        let dir = trace_dir();
+        let _ = fs::create_dir_all(&dir);
+        let tmp = PathBuf::from(format!("{dir}/{id}.replay.{}.jsonl", std::process::id()));
+        fs::write(&tmp, lines.join("\n") + "\n")
+            .unwrap_or_else(|e| engine::machinery_error(&format!("cannot write {tmp:?}: {e}")));
+        let (mism, _) = run_validator(id, &tmp);
+        let _ = fs::remove_file(&tmp);
+        mism.into_iter().map(|m| (m.sig, m.detail)).collect()
+    }
+}
